@@ -218,17 +218,26 @@ def c03_keys(rng):
     return keys
 
 
+def released_hash(k):
+    """Disk.hash of the released format for native numeric keys, written out independently: ints by value,
+    floats by adler32 of their big-endian IEEE bytes."""
+    import struct
+    import zlib
+    if type(k) is int:
+        return k % 0xFFFFFFFF
+    return zlib.adler32(struct.pack('!d', k)) & 0xFFFFFFFF
+
+
 def classify_equal_keys(dc, keys, k):
     """Known finding K2: a numerically equal key of the other numeric type (int vs integral float, 0.0 vs -0.0)
     was also stored, and Disk.hash routes the two differently."""
-    if type(k) not in (int, float):
+    if type(k) not in (int, float) or (type(k) is int and not -2**63 <= k < 2**63):
         return None
-    disk = dc.Disk('/nonexistent')
     for other in keys:
-        if other is k or type(other) not in (int, float):
+        if other is k or type(other) not in (int, float) or (type(other) is int and not -2**63 <= other < 2**63):
             continue
         if ident(other) == ident(k) and (type(other) is not type(k) or repr(other) != repr(k)):
-            if disk.hash(other) != disk.hash(k):
+            if released_hash(other) != released_hash(k):      # inherent in the released routing function
                 return 'equal-numeric-keys-hash-differently'
     return None
 
@@ -301,8 +310,7 @@ def equal_keys(dc, sc, res, shards, label):
                 if len(f) != 0:
                     problems.append('delete(%r) left %d item(s)' % (k2, len(f)))
                 if problems:
-                    disk = dc.Disk('/nonexistent')
-                    sig = 'equal-numeric-keys-hash-differently' if disk.hash(k1) % shards != disk.hash(k2) % shards else None
+                    sig = 'equal-numeric-keys-hash-differently' if released_hash(k1) % shards != released_hash(k2) % shards else None
                     res.violation('set(%r) then %s: the cache treats %r and %r as one key, the sharded cache does not (%d shards)'
                                   % (k1, '; '.join(problems), k1, k2, shards), {'label': label, 'k1': k1, 'k2': k2}, signature=sig)
     finally:
